@@ -28,7 +28,11 @@ RULE = ("Editing blocks: generated mesh (surfaces: 15 base shapes x face deletio
         "nothing / 1-4 single queries (half of the time all of the kind that fills one particular lazily built table) / everything "
         "x a generated sequence of 1-4 operations with arguments reduced modulo what exists x optionally a second editing block on "
         "the same object (the result or the object passed in) after a full sweep, a few single queries or no query; polylines are "
-        "queried (nothing / single kinds / everything) between consecutive splits as well. The editor state is observed after every "
+        "queried (nothing / single kinds / everything) between consecutive splits as well. Per case also drawn: python type of the "
+        "face / cell records (lists, tuples, numpy rows of int64/32/16/uint8, mouette.mesh.from_arrays), element ids as numpy integer "
+        "scalars, config.display_duplicate_attribute_warning, config.complete_edges_from_faces (surfaces; off = explicit edge list), "
+        "placement far from the origin (1e3 / 1e6 x size) or anisotropic scaling, and in ~1/8 of the blocks an exception (out-of-range "
+        "element id or an error of the caller) that leaves the block after 0-4 operations and is caught. The editor state is observed after every "
         "operation and compared with a harness-side refinement of the previously observed state; after each block the result and the "
         "object passed in are validated and swept with the C01/C03 reference-connectivity battery. non-trivial = the mesh has a "
         "non-triangular face or a border (surfaces) / an interior face (volumes) / >=2 edges (polylines), or >=2 operations or a second "
@@ -38,7 +42,11 @@ ASSUMPTIONS = ["inputs are oriented manifold surfaces / conforming tetrahedral m
                "new vertices are identified by position; cases in which two expected new vertices coincide (1e-6 rel.) skip the face-by-face comparison",
                "which diagonal splits a quad and how an n-gon (n>=5) is triangulated is left open (validity predicate)",
                "faces / cells not touched by a single-element operation keep their index (in-repo callers rely on it)",
-               "all position tolerances are relative to the largest coordinate magnitude of the case (1e-9; 1e-12 for polyline midpoints)"]
+               "position tolerance = 1e-9 x size of the mesh + 1e-13 x largest coordinate magnitude; area / volume 1e-9 + 256 eps x magnitude/size",
+               "after an exception escaped from an editing block the object passed in must be its former self or a consistent mesh on the "
+               "data processed before the exception (what the unchanged library does: the block still rebuilds it); editor.mesh is not looked at",
+               "config.complete_faces_from_cells / complete_edges_from_faces = False are not drawn for tetrahedral meshes (the unchanged "
+               "library fails there: reported finding C13-7)"]
 
 MAX_FACES = 450        # operations whose result would exceed this many faces are skipped (counted as label)
 SWEEP_CAP = 80         # per query kind, at most this many elements are swept on large results
